@@ -26,6 +26,7 @@ EXPLANATION = (
     "abandoned intermediate names) is inverted only when restricted to the node's current names; (R8) the copy helper of every concrete node "
     "class gives the derived node its own history list (renames are appended in place, so a shared list would let a later rename of one node "
     "re-map the names of another). R1 also requires that every entry of a batch records its mapping unconditionally; R6 now also covers the callable-node executors (current input names vs the function's own parameter names)."
+    " (R9) the node cache keys each argument under the function's own parameter name (map_inputs_to_params), the only place the wiring enters the key."
 )
 NOT_DECIDED = "That a consistently alpha-renamed graph computes equal values (a statement about runs); rename validation errors (unknown/duplicate names)."
 
@@ -390,4 +391,5 @@ VARIANTS = [
     Variant("value-source-inner-bound-by-outer-name", HP, replace_once("        if original_param in node._graph.inputs.bound:\n            return (ValueSource.BOUND, node._graph.inputs.bound[original_param])", "        if param in node._graph.inputs.bound:\n            return (ValueSource.BOUND, node._graph.inputs.bound[param])"), {"C06.R6"}),
     Variant("graphnode-copy-plain", GN, replace_once("        new = copy.copy(self)\n        new._rename_history = list(self._rename_history)\n", "        new = copy.copy(self)\n"), {"C06.R8"}),
     Variant("twin-resolver-local-alias", GN, replace_once("        reverse_map = build_reverse_rename_map(self._rename_history, \"inputs\")\n        return reverse_map.get(param, param)", "        rmap = build_reverse_rename_map(self._rename_history, \"inputs\")\n        original = rmap.get(param, param)\n        return original"), set()),
+    Variant("cache-key-by-external-names", "src/hypergraph/runners/_shared/caching.py", replace_once("cache_key = compute_cache_key(identity, node.map_inputs_to_params(inputs))", "cache_key = compute_cache_key(identity, inputs)"), {"C06.R9"}),
 ]
